@@ -110,7 +110,7 @@ func (c *clientConn) recv() error {
 			return fmt.Errorf("sid not found: %d", sid)
 		}
 
-		vhook("cc.deliver", uint64(sid), 1)
+		vhookChan("cc.deliver.recv", sid, ch)
 		ch <- result{typ: typ, data: data}
 	}
 }
@@ -122,14 +122,14 @@ func (c *clientConn) putChannel(ch chan<- result, sid uint32) bool {
 	select {
 	case <-c.closed:
 		// already closed with broadcastErr, return error on chan.
-		vhook("cc.deliver", uint64(sid), 2)
+		vhookChan("cc.deliver.closed", sid, ch)
 		ch <- result{err: ErrSSHFxConnectionLost}
 		return false
 	default:
 	}
 
 	c.inflight[sid] = ch
-	vhook("cc.put", uint64(sid), 0)
+	vhookChan("cc.put", sid, ch)
 	return true
 }
 
@@ -182,7 +182,7 @@ func (c *clientConn) dispatchRequest(ch chan<- result, p idmarshaler) {
 
 	if err := c.conn.sendPacket(p); err != nil {
 		if ch, ok := c.getChannel(sid); ok {
-			vhook("cc.deliver", uint64(sid), 3)
+			vhookChan("cc.deliver.senderr", sid, ch)
 			ch <- result{err: err}
 		}
 	}
@@ -195,7 +195,7 @@ func (c *clientConn) broadcastErr(err error) {
 
 	bcastRes := result{err: ErrSSHFxConnectionLost}
 	for sid, ch := range c.inflight {
-		vhook("cc.deliver", uint64(sid), 4)
+		vhookChan("cc.deliver.bcast", sid, ch)
 		ch <- bcastRes
 
 		// Replace the chan in inflight,
